@@ -64,6 +64,7 @@ def run(chk):
                 chk.report("C01:value:%s:%s:%s" % (c["t"], kernel.OPNAME.get(c["op"], c["op"]), cls_of(c)),
                            "%s prints %s; Go's semantics give %s" % (kernel.call(c), got, want), {"case": c, "got": got, "want": want})
     slices(chk, wa, thorough)
+    values(chk, wa)
     chk.sample({"call": kernel.call(cs[0]), "want": kernel.expected_rt(cs[0], signed)})
     chk.sample({"call": kernel.call(cs[len(cs) // 2]), "want": kernel.expected_rt(cs[len(cs) // 2], signed)})
     chk.cov["exhaustive"] = True
@@ -104,6 +105,34 @@ def slices(chk, wa, thorough):
                            {"history": h, "got": got})
     chk.cov["slice_histories"] = len(hs)
     chk.sample({"slice_history": hs[len(hs) // 2]})
+
+
+def values(chk, wa):
+    """WaGen.tla: every well-typed (type, context) skeleton prints the observation the spec gives for the zero value or the initialiser"""
+    import os
+    import c16
+    res = common.run_tlc("lang", "WaGen", "gen.cfg", collect_prefix='<<"T"', timeout=1200)
+    chk.tlc(res, "WaGen (zero values and initialisers of composite types in 23 contexts)")
+    sks = [json.loads(common.parse_printt(l, "T")[0]) for l in res.lines]
+    sks = sorted((s for s in sks if s["expect"] == "compiles"), key=lambda s: (s["ctx"], s["type"]))
+
+    def job(isk):
+        i, sk = isk
+        src, want = c16.render(sk)
+        d = common.subdir("c01v/%d" % (i % 64))
+        f = os.path.join(d, "p%d.wa" % i)
+        open(f, "w").write(src)
+        rc, so, se, to = common.run_child([wa, "run", f], timeout=120, cwd=d)
+        os.unlink(f)
+        return sk, src, want, rc, (so + se).strip(), to
+    for sk, src, want, rc, out, to in common.parallel(job, list(enumerate(sks))):
+        chk.add("traces_validated_against_impl", 1)
+        key = "%s@%s" % ("-".join(sk["type"]), sk["ctx"])
+        if to or rc != 0 or out.splitlines()[-1:] != [want]:
+            chk.report("C01:values:%s" % key, "a %s in context %s prints %r (status %s%s); the specified observation is %r"
+                       % (c16.tyexpr(sk["type"]), sk["ctx"], out[-120:], rc, ", timed out" if to else "", want), {"skeleton": sk, "program": src, "output": out[-400:]})
+    chk.cov["value_skeletons"] = len(sks)
+    chk.sample({"value_skeleton": sks[len(sks) // 3], "program": c16.render(sks[len(sks) // 3])[0]})
 
 
 def replay(chk, path):
